@@ -3,8 +3,11 @@ pub mod c01;
 pub mod c02;
 pub mod c03;
 pub mod c04;
+pub mod c05;
 pub mod c06;
 pub mod c08;
+pub mod c09;
+pub mod c10;
 pub mod c11;
 pub mod c12;
 pub mod c13;
@@ -12,6 +15,8 @@ pub mod c14;
 pub mod c15;
 pub mod c16;
 pub mod c17;
+pub mod c18;
+pub mod c20;
 
 pub fn lookup(id: &str) -> Option<&'static dyn Prop> {
     match id {
@@ -19,8 +24,11 @@ pub fn lookup(id: &str) -> Option<&'static dyn Prop> {
         "C02" => Some(&c02::C02),
         "C03" => Some(&c03::C03),
         "C04" => Some(&c04::C04),
+        "C05" => Some(&c05::C05),
         "C06" => Some(&c06::C06),
         "C08" => Some(&c08::C08),
+        "C09" => Some(&c09::C09),
+        "C10" => Some(&c10::C10),
         "C11" => Some(&c11::C11),
         "C12" => Some(&c12::C12),
         "C13" => Some(&c13::C13),
@@ -28,6 +36,8 @@ pub fn lookup(id: &str) -> Option<&'static dyn Prop> {
         "C15" => Some(&c15::C15),
         "C16" => Some(&c16::C16),
         "C17" => Some(&c17::C17),
+        "C18" => Some(&c18::C18),
+        "C20" => Some(&c20::C20),
         _ => None,
     }
 }
